@@ -51,9 +51,14 @@ fn main() {
             println!("de_invalid|{}|{}|{}", a, b, de(&DynamicError::invalid_transition(a, b)));
             println!("de_guard|{}|{}|{}", a, b, de(&DynamicError::guard_failed(a, b)));
             println!("de_action|{}|{}|{}", a, b, de(&DynamicError::action_failed(a, b)));
+            println!("dbg_de_invalid|{}|{}|{:?}", a, b, DynamicError::invalid_transition(a, b));
+            println!("dbg_de_guard|{}|{}|{:?}", a, b, DynamicError::guard_failed(a, b));
+            println!("dbg_de_action|{}|{}|{:?}", a, b, DynamicError::action_failed(a, b));
+            println!("dbg_ge|{}|{}|{:?}", a, b, GuardError::new(a, b));
             for &c in &names {
                 println!("te_guard|{}|{}|{}|{}", a, b, c, te(&TransitionError::guard_failed(St(a), b, c)));
                 println!("de_wrong|{}|{}|{}|{}", a, b, c, de(&DynamicError::wrong_state(a, b, c)));
+                println!("dbg_de_wrong|{}|{}|{}|{:?}", a, b, c, DynamicError::wrong_state(a, b, c));
                 let kinds = [
                     TransitionErrorKind::GuardFailed { guard: c },
                     TransitionErrorKind::ActionFailed { action: c },
